@@ -55,6 +55,9 @@ def key_fns(item_kind, rng, tagged=False):
             ('skip-small', lambda t: SKIP if t < 2 else wrap(t % m), lambda t: SKIP if t < 2 else wrap(t % m)),
             ('skip-odd', lambda t: SKIP if t % 2 else wrap(t // 2 % m), lambda t: SKIP if t % 2 else wrap(t // 2 % m)),
             ('const', lambda t: wrap('all'), lambda t: wrap('all')),
+            # keys that are EQUAL (and hash alike) but of different types: 1 / 1.0 / True and 0 / 0.0 / False are two buckets
+            ('equal-keys-of-mixed-types', lambda t: wrap(((0, 0.0, False), (1, 1.0, True))[t % 2][t // 2 % 3]),
+             lambda t: wrap(((0, 0.0, False), (1, 1.0, True))[t % 2][t // 2 % 3])),
         ]
     elif item_kind == 'tuple':
         pool = [
